@@ -25,7 +25,10 @@ def load():
 
 
 def main():
-    load()
+    import tools.manifest as M
+
+    M.load()
+    CLAIMS, NOT_APPLICABLE = M.CLAIMS, M.NOT_APPLICABLE
     checks = []
     for pid in sorted(CLAIMS):
         technique, text, note, ref = CLAIMS[pid]
